@@ -73,3 +73,23 @@ package signjar
 //@        cur = ite(samearr(p, line), cur + len(p), ite(len(p) == 1, cur + 1, 0))
 //@   ensures @whole_attribute_written_and_last_line_terminated emitted == len(line) && cur == 0
 //@   loop 0 sig "for i := 0; i < len(line);" invariant 0 <= i && i <= len(line) && emitted == i && cur == 0 && line != nil
+
+//@ func verifySigFile
+//@   property C02
+//@   ghost whole int = 0
+//@   ghost mainOK bool = false
+//@   on call hashFile(_, _, suf) ret (e): whole = ite(suf == "-Manifest", ite(e == nil, 1, ite(e == errNoDigests, 2, 3)), whole); \
+//@        mainOK = mainOK || (suf == "-Manifest-Main-Attributes" && e == nil)
+//@   ensures @a_mismatching_manifest_digest_is_never_accepted ret1 == nil ==> whole == 1 || whole == 2
+//@   loop 0 sig "for i, section := range sections" invariant whole == 2 && (rangeindex >= 0 ==> mainOK)
+//@   loop 1 sig "for name, keys := range sfParsed.Files" invariant whole == 2
+//@
+//@ func hashFile
+//@   property C02
+//@   ghost compared int = 0
+//@   on call (*encoding/base64.Encoding).EncodeToString(_, _) ret (s): compared = compared + 1
+//@   ensures @success_needs_at_least_one_digest_and_compares_every_one ret0 == nil ==> len(digesters) > 0 && compared == len(digesters)
+//@   loop 0 sig "for key, value := range keys" invariant compared == 0
+//@   loop 1 sig "for" invariant compared == 0 && len(digesters) > 0
+//@   loop 2 sig "for _, digester := range digesters" invariant compared == 0 && len(digesters) > 0
+//@   loop 3 sig "for _, digester := range digesters" invariant compared == rangeindex + 1 && len(digesters) > 0
